@@ -391,9 +391,15 @@ inline ExecResult run_program(const Program & p, const char * path, Model & m, b
 
 // ---------------------------------------------------------------------------------------------
 // Reader-side observation helpers
+extern "C" {
+#include "jls/log.h"
+}
+inline void verif_log_cbk(const char * msg) { fputs(msg, stderr); }
+inline void verif_log_init() { static bool done = false; if (!done) { done = true; if (getenv("VERIF_JLSLOG")) jls_log_register(verif_log_cbk); } }
+
 struct Reader {
     struct jls_rd_s * rd = nullptr;
-    int32_t open(const char * path) { return jls_rd_open(&rd, path); }
+    int32_t open(const char * path) { verif_log_init(); return jls_rd_open(&rd, path); }
     void close() { if (rd) jls_rd_close(rd); rd = nullptr; }
     ~Reader() { close(); }
 };
